@@ -802,6 +802,7 @@ func (b *Builder) Position(o interface{}, x int) {
 		b.setErr(fmt.Errorf("%T does not support position, only type bit", o))
 	} else {
 		i.Position = x
+		i.posSet = true
 	}
 }
 
@@ -829,6 +830,7 @@ func (b *Builder) EnumValue(o interface{}, x int) {
 		b.setErr(fmt.Errorf("%T does not support value, only type enum", o))
 	} else {
 		i.val = x
+		i.valSet = true
 	}
 }
 
